@@ -133,10 +133,15 @@ class Flow(object):
             pscope = self.scope.parent
             if pscope:
                 snames = pscope.names
-                if isinstance(self.scope, ClassScope):
+                if isinstance(self.scope, ClassScope) and not self.scope.globals:
                     return MergedDict(snames)
                 else:
-                    outer_names = set(snames).difference(self.scope.locals)
+                    if isinstance(self.scope, ClassScope):
+                        # a class body sees every outer name, except the ones
+                        # it declares global
+                        outer_names = set(snames)
+                    else:
+                        outer_names = set(snames).difference(self.scope.locals)
                     if self.scope.globals and self.scope is not self.scope.top:
                         # a name declared global resolves at module level,
                         # whatever the enclosing functions bind
